@@ -26,10 +26,21 @@ sys.path.insert(0, base)
 import dds
 import dds._api as api
 dds.accept_module("bmain")
-if k > 0:
+late = len(sys.argv) > 3 and sys.argv[3] == "late"
+if k > 0 and not late:
     dds.accept_module(".".join("q%d" % i for i in range(k)))
 dds.set_store("memory")
 import bmain
+if late:
+    # the package is accepted only AFTER a first evaluation of every caller in this process (a notebook where
+    # dds.accept_module comes late): from then on everything is as if it had been accepted from the start
+    for name in sorted(n for n in dir(bmain) if n.startswith("c_")):
+        try:
+            dds.keep("/b/" + name, getattr(bmain, name))
+        except BaseException:
+            pass
+    dds.accept_module(".".join("q%d" % i for i in range(k)))
+    dds.set_store("memory")
 out = {}
 for name in sorted(n for n in dir(bmain) if n.startswith("c_")):
     try:
@@ -93,11 +104,11 @@ def materialise(d):
     open(os.path.join(d, "runner.py"), "w").write(RUNNER)
 
 
-def run(d, k, repo):
+def run(d, k, repo, late=False):
     env = dict(os.environ)
     env["PYTHONPATH"] = repo
     env.pop("PYTHONHASHSEED", None)
-    p = subprocess.run([sys.executable, os.path.join(d, "runner.py"), d, str(k)], capture_output=True, text=True, env=env, cwd=d, timeout=300)
+    p = subprocess.run([sys.executable, os.path.join(d, "runner.py"), d, str(k)] + (["late"] if late else []), capture_output=True, text=True, env=env, cwd=d, timeout=300)
     lines = [l for l in p.stdout.strip().split("\n") if l.startswith("{")]
     if lines:
         return json.loads(lines[-1])
@@ -143,6 +154,12 @@ def main():
         for (k, L, kind, d), r in zip(jobs, results):
             if L is None:
                 base[k] = r
+        for k in (1, 3, DEPTH):
+            evals += 1
+            r = run(os.path.join(tmp, "k%d_base" % k), k, repo, late=True)
+            diff = sorted(n for n in base[k] if n.startswith("c_") and base[k][n] != r.get(n))
+            if "__crash__" in r or diff:
+                note(None, "accepted prefix depth %d accepted only after a first evaluation of every caller in the same process: %s" % (k, r.get("__crash__", "")[-160:] or "the signatures of %s differ from those of a process that accepted it from the start (the late acceptance is not honoured)" % diff[:6]))
         for (k, L, kind, d), r in zip(jobs, results):
             evals += 1
             if "__crash__" in r:
